@@ -395,7 +395,7 @@ static const char *g_call_what = "";
 void vrt_call_begin(const char *what)
 {
     g_call_what = what;
-    double d = vrt_wall() + 20.0 * vrt_san_scale;
+    double d = vrt_wall() + 30.0 * vrt_san_scale;
     uint64_t bits;
     memcpy(&bits, &d, 8);
     __atomic_store_n((uint64_t *)&g_call_deadline, bits, __ATOMIC_RELEASE);
@@ -512,12 +512,16 @@ static void *supervisor(void *arg)
             double dl;
             memcpy(&dl, &bits, 8);
             if (bits && now > dl) {
-                char key[160];
-                snprintf(key, sizeof(key), "hang:call-did-not-return:%s", g_call_what);
-                vrt_violation(key, "%s did not return within %.0fs although nothing "
-                              "it could wait for exists", g_call_what, 20.0 * vrt_san_scale);
-                emit_result("call-hang", "violated");
-                _exit(1);
+                /* wall clock: inconclusive, the driver re-runs once and reports a
+                 * hang only if it is reproduced */
+                pthread_mutex_lock(&g_out_lock);
+                snprintf(g_inconclusive, sizeof(g_inconclusive), "stalled: %s did not return within %.0fs although nothing it "
+                         "could wait for exists", g_call_what, 30.0 * vrt_san_scale);
+                pthread_mutex_unlock(&g_out_lock);
+                fprintf(stderr, "VRT-CALL-DEADLINE[%s]: %s\n", g_harness, g_inconclusive);
+                vrt_dump_actors(stderr);
+                emit_result("call-hang", "inconclusive");
+                _exit(3);
             }
         }
         if (now - g_t0 > g_watchdog_s && !__atomic_load_n(&g_finished, __ATOMIC_ACQUIRE)) {
